@@ -31,6 +31,9 @@ CHECKS['C07'] = dict(engine='S+M', tech=S_TECH + '; integer guards from MIR (Eng
 CHECKS['C12'] = dict(engine='S+M', tech=S_TECH,
     text='bounded symbolic verification: proofs made under capacity c_p verify under every c_v (residual identically zero) alone and in mixed-capacity batches in every order; generators are basis elements named by their derivation input, so capacity-dependent derivations would be distinct basis elements and the identity would fail; the model MSM asserts the backend length contracts',
     note='A1, A2, A4, A5; capacities up to 4m quick / 8m thorough', ref='§5 C12')
+CHECKS['C04'] = dict(engine='S', tech='symbolic execution of the real transcript code on an interned absorb-log model of merlin; two-copy injectivity queries decided by z3',
+    text='bounded symbolic verification under the random-oracle abstraction: every datum the verifier absorbs is made a free symbol (caller context, free generators H/G_k, commitments, promises, A, L_j, R_j, A1, B); for every challenge and every datum that precedes it z3 shows that equal hash inputs force the datum equal; prover and verifier reach the same interned log; integer fields are absorbed as LE64',
+    note='A1 (a challenge "changes" iff its hash input changes), A3, A5 (merlin frames messages by label and length)', ref='§5 C04')
 NA = {
 }
 def main():
